@@ -396,6 +396,13 @@ def collide(js, rng):
     return js
 
 
+S4 = {"type": "record", "name": "J4", "namespace": "c17", "fields": [
+    {"name": "id", "type": "int"},
+    {"name": "tags", "type": [{"type": "array", "items": "string"}, "null"], "default": ["a", "b"]},
+    {"name": "props", "type": [{"type": "map", "values": "int"}, "null"], "default": {"k": 1, "l": 2}},
+    {"name": "plain", "type": {"type": "array", "items": "int"}, "default": [1, 2, 3]}]}
+
+
 def build_history(rng, scratch):
     """A list of steps; each step = (op name, args builder reading the env)."""
     env = {}
@@ -412,6 +419,10 @@ def build_history(rng, scratch):
     third = gen_case(rng, dict(bytes_defaults=0.4, max_nodes=10, max_depth=3, logical=True, top_kinds=["record"]),
                      dict(size_budget=20, big=0.0, mappings=0.0))
     schemas["s3"] = (third["schema"], third["node"])
+    # a hand-made schema whose union-typed fields have non-empty array / map defaults (mutable
+    # objects of the schema that a decoder filling in absent fields must not consume)
+    s4 = copy.deepcopy(S4)
+    schemas["s4"] = (s4, RS.build(s4)[0])
     return schemas
 
 
@@ -451,7 +462,7 @@ def _run_history(sh, fa, zy, rng, scratch, hidx, schemas, repo_dir, repo_root, r
     collided = False
     last_schema_key = None
     for step in range(nsteps):
-        which = rng.choice(["s1", "s1", "s2", "s3"])
+        which = rng.choice(["s1", "s1", "s2", "s3", "s4"])
         js, node = schemas[which]
         if last_schema_key and last_schema_key != which:
             collided = True
